@@ -92,11 +92,23 @@ def buf_rules(ctx):
     # from ROW-REC: kernel rows written are offset + i + 1, i in range(len(theta))
     maxrow = A.add(off, nread)          # offset + (n-1) + 1
     # capacity test
-    tests = [s for s in f.node.body if isinstance(s, ast.If) and
-             isinstance(s.test, ast.Compare) and len(s.test.ops) == 1 and
-             isinstance(s.test.ops[0], (ast.Gt, ast.GtE)) and
-             any(isinstance(n, ast.Call) and isinstance(n.func, ast.Attribute) and
-                 n.func.attr == 'resize' for n in ast.walk(s))]
+    grow = [s for s in f.node.body if isinstance(s, ast.If) and
+            any(isinstance(n, ast.Call) and isinstance(n.func, ast.Attribute) and
+                n.func.attr == 'resize' for n in ast.walk(s))]
+    tests = [s for s in grow if isinstance(s.test, ast.Compare) and len(s.test.ops) == 1 and
+             isinstance(s.test.ops[0], (ast.Gt, ast.GtE))]
+    narrowed = [s for s in grow if isinstance(s.test, ast.BoolOp) and
+                isinstance(s.test.op, ast.And)]
+    if len(tests) != 1 and len(grow) == 1 and narrowed:
+        extra = [norm_text(v) for v in narrowed[0].test.values
+                 if not (isinstance(v, ast.Compare) and isinstance(v.ops[0], (ast.Gt, ast.GtE)))]
+        ctx.ob('BUF-BOUND', False, None, 'one capacity test with a growth branch', f=f,
+               node=narrowed[0].test, key='cap-test',
+               why='the buffers are grown only when additionally (%s) holds, but the kernel '
+                   'call after it runs on every path and writes row offset + n: on the path '
+                   'where that extra condition is false and the buffers are full the compiled '
+                   'kernel writes past their end (no bounds check)' % ' and '.join(extra))
+        return
     ctx.ob('BUF-BOUND', len(tests) == 1, None, 'one capacity test with a growth branch', f=f,
            node=f.node, key='cap-test', why='capacity test before the kernel call not found')
     if len(tests) != 1:
